@@ -24,6 +24,13 @@ What runs on every `./check C20`:
    instantiated without external tools x grammar types x cache types x moments x serializers, scenarios,
    problems, functions, design spaces, grammars, caches, DOE libraries, statuses, statistics, directory creators.
 
+4. **Other interpreters** (c20_xproc): objects pickled by one interpreter (`pickle.dump`, `to_pickle`, the implicit
+   pickling of a `spawn` process) and restored by another one with another `PYTHONHASHSEED`: every discipline
+   recipe of the catalogue once per run (settings edited after creation included), functions, design spaces,
+   problems, scenarios, grammars; and the `ad` protocol: `AnalyticDiscipline`s made of integer polynomials at
+   dyadic inputs - exact oracle (fractions), and correspondence with the model `AD` parameterized by the
+   iteration orders of the writer and of the reader (observed through SymPy).
+
 Streams: everything above is in scope except the `probe` stream (objects in a state the property does not
 quantify over: a `Value` holding a path, hooks re-assigning an attribute twice), compared with the model for
 information only.
@@ -44,6 +51,7 @@ from pathlib import Path
 from typing import Any
 
 from harness import c20_life as LIFE
+from harness import c20_xproc as XP
 from harness import common
 from harness import translate_c20 as TR
 from harness.common import Result
@@ -869,6 +877,17 @@ def core_cases() -> list[dict[str, Any]]:
                           "edits": [["in-optional", 1], ["use", 0], ["in-required", 0], ["in-optional", 0]]})
     for c in ("SimpleCache", "HDF5Cache"):
         cases.append({"kind": "cache", "cache": c, "seed": 1, "n_entries": 2, "edits": [["tol", "1/64"], ["name", "renamed"]]})
+    # settings of the Jacobian approximator (an object created after the construction): user step, optimal steps
+    # computed by set_optimal_fd_step(), parallel options, linearization mode set through the property
+    for r in ("Sellar1", "AnalyticDiscipline", "AutoPyDiscipline", "MDOChain"):
+        for m in ("fresh", "linearized"):
+            cases.append({"kind": "discipline", "recipe": r, "moment": m, "seed": 6, "edits": [["fd-opt-step", 0, "1/128"]]})
+            cases.append({"kind": "discipline", "recipe": r, "moment": m, "seed": 6, "blind": True,
+                          "edits": [["jac-approx", 1, "1/1024", 0], ["use", 0], ["fd-opt-step", -1]]})
+    cases.append({"kind": "discipline", "recipe": "Sellar1", "moment": "executed", "seed": 7, "edits": [["jac-approx", 0, "1/1024", 1]]})
+    cases.append({"kind": "discipline", "recipe": "Sellar1", "moment": "executed", "seed": 7, "serializer": "gemseo",
+                  "edits": [["lin-mode", 5], ["fd-opt-step", -1]]})
+    cases.append({"kind": "discipline", "recipe": "MDOChain", "moment": "fresh", "seed": 7, "blind": True, "edits": [["lin-mode", 2]]})
     for sc in ("MDO", "DOE"):
         for m in ("fresh", "executed"):
             cases.append({"kind": "scenario", "scenario": sc, "formulation": "MDF", "moment": m, "algo": "SLSQP" if sc == "MDO" else "PYDOE_LHS"})
@@ -890,6 +909,8 @@ def core_cases() -> list[dict[str, Any]]:
 def gen_edits(rng: common.Rng, cache: str) -> list[list[Any]]:
     """Settings changed through the public API between the construction (or the last use) and the pickling."""
     kinds = ["in-optional", "in-optional", "in-default", "in-default", "in-required", "out-optional", "use", "use"]
+    # settings living in the Jacobian approximator (created after the construction) and the linearization mode
+    kinds += ["jac-approx", "jac-approx", "fd-opt-step", "fd-opt-step", "lin-mode"]
     if cache != "none":
         kinds += ["cache-tol"] * 4 + ["cache-name"] * 2
     edits: list[list[Any]] = []
@@ -899,6 +920,12 @@ def gen_edits(rng: common.Rng, cache: str) -> list[list[Any]]:
             edits.append([k, rng.pick(["1/64", "1/1024", "1/16", "0"])])
         elif k == "cache-name":
             edits.append([k, rng.pick(["renamed", "c2"])])
+        elif k == "jac-approx":
+            edits.append([k, rng.pick([0, 0, 1, 1, 2]), rng.pick(["1/128", "1/1024", "1/1048576"]), 1 if rng.chance(0.08) else 0])
+        elif k == "fd-opt-step":
+            edits.append([k, rng.pick([0, 0, 1, -1]), rng.pick(["1/128", "1/1024"])])
+        elif k == "lin-mode":
+            edits.append([k, rng.randint(0, 6)])
         else:
             edits.append([k, rng.randint(0, 5)])
     return edits
@@ -989,6 +1016,8 @@ def run_case(case: dict[str, Any], tmp: Path):
 
     if case["kind"] == "discipline":
         return D.run_discipline_case(case, tmp)
+    if case["kind"] == "xproc":
+        return XP.run_job(case, tmp)
     return D2.RUNNERS[case["kind"]](case, tmp)
 
 
@@ -1158,6 +1187,203 @@ def load_corpus() -> list[dict[str, Any]]:
     return cases
 
 
+# --------------------------------------------------------------------------- other interpreters (c20_xproc)
+
+
+def xproc_jobs(seed: int, thorough: bool) -> list[dict[str, Any]]:
+    """The cross-interpreter jobs of a run: every recipe of the catalogue once (batched: one writer interpreter
+    and its readers per batch), the other object kinds, and the exact `ad` items."""
+    from harness import c20_catalog as CAT
+
+    rng = common.make_rng(seed, "c20-xproc")
+    recipes, _ = CAT.discipline_recipes()
+    names = sorted(recipes)
+    items = []
+    for name in names:
+        it = {
+            "kind": "discipline",
+            "recipe": name,
+            "grammar": rng.pick(["JSONGrammar", "JSONGrammar", "JSONGrammar", "SimpleGrammar", "PydanticGrammar"]),
+            "cache": rng.pick(["SimpleCache", "SimpleCache", "none"]),
+            "moment": rng.pick(CAT.MOMENTS),
+            "serializer": rng.pick(["pickle", "gemseo", "pickle-highest"]),
+            "n_pre": rng.randint(1, 2),
+            "n_post": 2,
+            "seed": rng.randint(0, 10**6),
+        }
+        if rng.chance(0.4):
+            it["edits"] = gen_edits(rng, it["cache"])
+        if rng.chance(0.5):
+            it["blind"] = True
+        items.append(it)
+    rng.shuffle(items)  # (heavy recipes - MDAs, Sobieski - are neighbours in alphabetical order)
+    n_batches = 6
+    jobs = []
+    base = 1000 + 17 * (seed % 10**6)
+    for b in range(n_batches):
+        batch = items[b::n_batches]
+        w = base + 3 * b
+        jobs.append({"kind": "xproc", "wseed": w, "rseeds": [w + 1, w + 2] if thorough else [w + 1], "via": "spawn" if b % 2 else "file", "items": batch})
+    others = []
+    for k in range(3):
+        others.append({"kind": "function", "shape": rng.pick(["f", "g", "lin", "quad", "neg", "add", "sub", "scal", "mul", "div", "offset", "lin-restrict", "concat", "convex"]),
+                       "moment": rng.pick(["fresh", "used"]), "seed": rng.randint(0, 10**6), "serializer": rng.pick(["pickle", "gemseo"])})
+    for k in range(2):
+        others.append({"kind": "design_space", "moment": rng.pick(["fresh", "used"]), "seed": rng.randint(0, 10**6), "serializer": rng.pick(["pickle", "gemseo"])})
+    for k in range(3):
+        others.append({"kind": "problem", "problem": rng.pick(["Power2", "Rosenbrock", "custom", "custom-max", "custom-fd"]), "moment": rng.pick(["fresh", "evaluated", "solved"]),
+                       "algo": rng.pick(["SLSQP", "PYDOE_LHS", "L-BFGS-B"]), "seed": rng.randint(0, 10**6), "serializer": rng.pick(["pickle", "gemseo"])})
+    others.append({"kind": "scenario", "scenario": "MDO", "formulation": rng.pick(["MDF", "IDF", "DisciplinaryOpt"]), "moment": rng.pick(["fresh", "executed"]), "algo": "SLSQP", "serializer": rng.pick(["pickle", "gemseo"])})
+    others.append({"kind": "scenario", "scenario": "DOE", "formulation": "MDF", "moment": rng.pick(["fresh", "executed"]), "algo": rng.pick(["PYDOE_LHS", "OT_HALTON"]), "serializer": "pickle"})
+    for k in range(4):
+        others.append({"kind": "grammar", "grammar": rng.pick(["JSONGrammar", "JSONGrammar", "SimpleGrammar", "SimplerGrammar", "PydanticGrammar"]), "seed": rng.randint(0, 10**6), "serializer": rng.pick(["pickle", "gemseo"])})
+    w = base + 40
+    jobs.append({"kind": "xproc", "wseed": w, "rseeds": [w + 1], "via": rng.pick(["file", "spawn"]), "items": others})
+    # the exact stream (and the `ad` protocol of the driver): two readers, so that the reader iterates over the
+    # free symbols of most expressions in another order than the writer
+    n_ad = 24 if thorough else 10
+    w = base + 50
+    jobs.append({"kind": "xproc", "wseed": w, "rseeds": [w + 1, w + 2], "via": "file", "items": [XP.gen_ad_item(rng) for _ in range(n_ad)]})
+    jobs.append({"kind": "xproc", "wseed": w + 5, "rseeds": [w + 6], "via": "spawn", "items": [XP.gen_ad_item(rng) for _ in range(n_ad // 2)]})
+    return jobs
+
+
+def ad_line(item: dict[str, Any], wenv: dict[str, list[str]], renv: dict[str, list[str]], mode: str = "init") -> str:
+    def mono(c, ss):
+        return "*".join([rat(Fraction(c)), *ss])
+
+    exprs = ";".join(f"{o}~{'+'.join(mono(c, ss) for c, ss in ms) or '_'}" for o, ms in item["exprs"])
+    we = ";".join(f"{o}~{'+'.join(wenv[o]) or '_'}" for o, _ in item["exprs"])
+    re_ = ";".join(f"{o}~{'+'.join(renv[o]) or '_'}" for o, _ in item["exprs"])
+    pts = "|".join("+".join(f"{s}^{rat(Fraction(v))}" for s, v in sorted(p.items())) for p in item["points"])
+    return f"ad exprs={exprs} wenv={we} renv={re_} mode={mode} pts={pts}"
+
+
+def ad_block(item: dict[str, Any], rec: dict[str, Any]) -> str:
+    """One observed discipline at one point, in the driver's format."""
+    if "exc" in rec["out"] or "exc" in rec["jac"]:
+        return "E"
+    outs = sorted((o, rec["out"][o]) for o, _ in item["exprs"])
+    jac = sorted((f"{o}.{n}", rec["jac"][o][n]) for o, ms in item["exprs"] for n in XP.ad_symbols(ms))
+    f = lambda kv: ",".join(f"{k}^{rat(Fraction(v))}" for k, v in kv) or "[]"  # noqa: E731
+    return f"{f(outs)};{f(jac)}"
+
+
+def ad_impl_answer(item, exact_w, exact_r) -> str:
+    return " | ".join(f"o={ad_block(item, a)} c={ad_block(item, b)}" for a, b in zip(exact_w, exact_r)) or "_"
+
+
+def shrink_xitem(job: dict[str, Any], item: dict[str, Any], rseed, fkind: str, tmp: Path) -> dict[str, Any]:
+    """A one-item, one-reader job on which the same failure kind still shows (confirmed by re-running it), with
+    the simplifications that keep it."""
+    base = {"kind": "xproc", "wseed": job["wseed"], "rseeds": [rseed] if rseed is not None else job["rseeds"][:1], "via": job.get("via", "file"), "items": [dict(item)]}
+
+    def fails(j) -> bool:
+        try:
+            o = XP.run_job(j, tmp)
+        except Exception:  # noqa: BLE001
+            return False
+        return o.status == "ok" and any(k == fkind for rec in o.info.get("items", []) for k, _, _ in rec["failures"])
+
+    if not fails(base):
+        return {"kind": "xproc", "wseed": job["wseed"], "rseeds": job["rseeds"], "via": job.get("via", "file"), "items": [dict(item)], "note": "not reproduced alone"}
+    cur = base
+    for dim, default in (("edits", None), ("moment", "fresh"), ("serializer", "pickle"), ("blind", None), ("grammar", "JSONGrammar")):
+        it = cur["items"][0]
+        if dim not in it or it[dim] == default:
+            continue
+        cand_item = dict(it)
+        if default is None:
+            cand_item.pop(dim)
+        else:
+            cand_item[dim] = default
+        cand = dict(cur, items=[cand_item])
+        if fails(cand):
+            cur = cand
+    if cur.get("via") == "spawn":
+        cand = dict(cur, via="file")
+        if fails(cand):
+            cur = cand
+    return cur
+
+
+def process_xproc(res: Result, job: dict[str, Any], out, tmp: Path, budget: list[int]) -> list[tuple[dict[str, Any], dict[str, Any], str, str]]:
+    """Record a cross-interpreter job; returns the `ad` correspondence work: (item, record, line, observed)."""
+    res.count(f"xproc:job:{out.status}:via={job.get('via')}")
+    work = []
+    if out.status != "ok":
+        res.notes.append(f"cross-interpreter job skipped ({len(job['items'])} items, writer seed {job['wseed']}): {out.detail[:300]}")
+        for _ in job["items"]:
+            res.count("xproc:item-skipped-with-its-job")
+        return work
+    for fail in out.info.get("reader_failures", []):
+        res.notes.append("cross-interpreter reader: " + fail[:300])
+    for item, rec in zip(job["items"], out.info["items"]):
+        res.evaluations += 1
+        res.count(f"xproc:{item['kind']}:{rec['status']}")
+        if rec["status"] != "ok":
+            if item["kind"] == "discipline":
+                res.count("xproc:recipe-not-covered:" + rec["status"])
+            continue
+        res.count(f"xproc:via={job.get('via')}")
+        for dim in ("moment", "serializer"):
+            if dim in item:
+                res.count(f"xproc:{dim}={item[dim]}")
+        if item["kind"] == "discipline":
+            res.count("xproc:recipe-covered")
+            for k in sorted(set(rec.get("edits_done") or [])):
+                res.count(f"xproc:edit={k}")
+        res.nontrivial(("xproc", rec["subject"], job["wseed"], tuple(job["rseeds"]), job.get("via"), item.get("moment"), item.get("seed"), json.dumps(item.get("exprs"))))
+        failed_kinds = set()
+        for fkind, what, rseed in rec["failures"]:
+            if fkind in failed_kinds:
+                continue
+            failed_kinds.add(fkind)
+            key = f"{rec['subject']}:other-interpreter:{fkind}" if rseed is not None else f"{rec['subject']}:{fkind}"
+            seen = {v.key for v in res.violations}
+            small = {"kind": "xproc", "wseed": job["wseed"], "rseeds": [rseed] if rseed is not None else job["rseeds"], "via": job.get("via"), "items": [item]}
+            if key not in seen and budget[0] > 0:
+                budget[0] -= 1
+                small = shrink_xitem(job, item, rseed, fkind, tmp)
+            shown = {k: v for k, v in small["items"][0].items() if k != "kind"}
+            res.violate("oracle", key, f"{rec['subject']} [{json.dumps(shown, default=str)[:400]}]: {fkind}: {what}", {"case": small})
+        if item["kind"] == "ad" and "ad" in rec:
+            wenv = rec["ad"]["wenv"]
+            for o, ms in item["exprs"]:
+                res.count(f"ad:symbols-in-expression={len(XP.ad_symbols(ms))}")
+            for r, rr in rec["ad"]["readers"].items():
+                for o, _ in item["exprs"]:
+                    res.count("ad:reader-iterates-the-symbols-" + ("in-another-order" if wenv[o] != rr["renv"][o] else "like-the-writer"))
+                work.append((item, {"failed": bool(rec["failures"]), "job": {"wseed": job["wseed"], "rseed": r, "via": job.get("via")}},
+                             ad_line(item, wenv, rr["renv"]), ad_impl_answer(item, rec["ad"]["exact_w"], rr["exact"])))
+    return work
+
+
+def check_ad_correspondence(res: Result, work) -> None:
+    """The `ad` protocol: the model `AD` (writer's and reader's iteration orders as observed) vs the real
+    AnalyticDiscipline written by one interpreter and restored by another."""
+    if not work:
+        return
+    lines = [w[2] for w in work]
+    model = common.run_lean_driver(PID, lines)
+    for (item, meta, line, impl), m in zip(work, model):
+        res.evaluations += 1
+        res.count("instance:ad")
+        if impl == m:
+            res.traces_validated += 1
+            res.nontrivial(("ad", line))
+            continue
+        res.disagreements += 1
+        if meta["failed"]:
+            continue  # the oracle already reported this item with its replay
+        res.violate(
+            "correspondence",
+            "instance:ad",
+            f"model and implementation disagree on an AnalyticDiscipline restored by another interpreter: {line}",
+            {"line": line, "expected(model)": m, "observed(implementation)": impl, "item": item, "job": meta["job"]},
+        )
+
+
 # --------------------------------------------------------------------------- run
 
 
@@ -1198,10 +1424,13 @@ def run(ctx) -> Result:
             res.notes.append(f"table obligation fails for {name}: {pbs} -> searching a concrete failing object")
 
         # ---- corpus first
+        corpus_xjobs: list[dict[str, Any]] = []
         for c in load_corpus():
             c = dict(c)
             fname = c.pop("_file")
-            if c.get("kind") == "probe":
+            if c.get("kind") == "xproc":
+                corpus_xjobs.append(c)  # (run with the other cross-interpreter jobs, in the pool)
+            elif c.get("kind") == "probe":
                 check_probe_cases(res, [c], True)
             elif c.get("kind") in ("jg", "h5", "jgl", "h5l"):
                 check_instance_cases(res, [c], tmp)
@@ -1243,12 +1472,16 @@ def run(ctx) -> Result:
 
         n_core = len(core_cases())
         results = []
+        xjobs = corpus_xjobs + xproc_jobs(ctx.seed, ctx.thorough)
+        xresults = []
         pooled_core = [c for c in cases[:n_core] if not needs_manager(c)]
         pooled_rest = [c for c in cases[n_core:] if not needs_manager(c)]
         local = [c for c in cases if needs_manager(c)]
         pool = ProcessPoolExecutor(n_workers, mp_context=multiprocessing.get_context("forkserver"), initializer=_worker_init)
         pids: list[int] = []
         try:
+            # (the cross-interpreter jobs first: they are the longest tasks; each starts its own interpreters)
+            x_futs = [pool.submit(_worker, j) for j in xjobs]
             core_futs = [pool.submit(_worker, c) for c in pooled_core]
             rest_futs = [pool.submit(_worker, c) for c in pooled_rest]
             for c in local:  # meanwhile, in this process
@@ -1258,6 +1491,12 @@ def run(ctx) -> Result:
             pids = list((getattr(pool, "_processes", None) or {}).keys())
             for f in as_completed(core_futs, timeout=900):
                 results.append(f.result())
+            try:
+                for f in as_completed(x_futs, timeout=max(60.0, min(900.0, ctx.deadline - time.time() - 120.0))):
+                    xresults.append(f.result())
+            except FTimeout:
+                res.notes.append(f"{len(xjobs) - len(xresults)} of {len(xjobs)} cross-interpreter jobs did not finish in time (skipped, not a verdict)")
+                res.count("xproc:job:unfinished", len(xjobs) - len(xresults))
             try:
                 for f in as_completed(rest_futs, timeout=max(1.0, budget_end - time.time())):
                     results.append(f.result())
@@ -1281,6 +1520,18 @@ def run(ctx) -> Result:
                 res.notes.append(f"harness crash on {case}: {out.detail}")
                 continue
             process_outcome(res, case, out, tmp, shrink=True)
+
+        # ---- other interpreters: oracle per item, then the `ad` protocol against the model
+        xresults.sort(key=lambda co: co[0]["wseed"])
+        ad_work = []
+        shrink_budget = [4]
+        for job, out in xresults:
+            if out.status == "crash":
+                res.count("harness-crash")
+                res.notes.append(f"harness crash on a cross-interpreter job (writer seed {job['wseed']}): {out.detail}")
+                continue
+            ad_work += process_xproc(res, job, out, tmp, shrink_budget)
+        check_ad_correspondence(res, ad_work)
 
         # ---- proof-directed search summary: a failing obligation must come with a concrete failing object
         for name, pbs in failing_rows.items():
